@@ -371,10 +371,18 @@ let () = register "ctable" (fun args ->
   let oracle =
     match w, norm_logs cfg.Writer.c_exact_log hs logs with
     | Result.Ok (false, _), Some nlogs ->
-      let spec = S.concat "|" ("ok" :: L.map (spec_query refs nlogs) qs) in
-      if L.nth impl 0 <> spec then "bad:C reading the Go-written table differs from the records written"
+      let specl = "ok" :: L.map (spec_query refs nlogs) qs in
+      let spec = S.concat "|" specl in
+      let where got =
+        let gl = S.split_on_char '|' got in
+        let rec go k a b = match a, b with
+          | x :: a', y :: b' -> if x = y then go (k + 1) a' b' else
+              Printf.sprintf " at result %d (query %s): got %d bytes, want %d bytes" k (if k = 0 then "open" else L.nth qs (k - 1)) (S.length x) (S.length y)
+          | _ -> " (different number of results)" in
+        go 0 gl specl in
+      if L.nth impl 0 <> spec then "bad:C reading the Go-written table differs from the records written" ^ where (L.nth impl 0)
       else if st <> "ok" then "bad:C writer refused records the Go writer accepts (" ^ st ^ ")"
-      else if L.nth impl 3 <> spec then "bad:Go reading the C-written table differs from the records written"
+      else if L.nth impl 3 <> spec then "bad:Go reading the C-written table differs from the records written" ^ where (L.nth impl 3)
       else
         let j = spec_judge (bytes_of_hex chex) refs nlogs mn mx cfg.Writer.c_sha256 in
         if j = "ok" then "ok" else "bad:C-written table " ^ j
